@@ -42,9 +42,9 @@ PROP = {
             "harnesses": [
                 H("c19_required_size_total", "P", what="encoded size arithmetic for all (u8,u8,u8)"),
                 H("c19_wire_valid_rejects_long_segment", "B", bound="offending segment length any 64..=2^32 at any position; other segments 1 hop",
+                  what=">63 hop fields in a segment => wire_valid Err", timeout=2400),
                 H("c19_empty_segments_are_skipped", "B", tier="experimental", bound="2 segments", what="add_segments ignores empty segments without affecting the others - timed out at 900 s (HashMap)", timeout=3600),
                 H("c19_path_no_panic_l1", "B", tier="experimental", bound="1 entry", what="PathSolution::path() never panics - timed out at 1500 s", timeout=3600),
-                  what=">63 hop fields in a segment => wire_valid Err", timeout=2400),
                 # written but NOT registered (CBMC timed out at 1500 s): c19_path_no_panic_l1/_l2/_l2_nopeers/_l3, c19_empty_segments_are_skipped
             ],
         },
